@@ -4,11 +4,11 @@ set -e
 cd "$(dirname "$0")"
 export GOFLAGS=-mod=mod GOPROXY=off GOSUMDB=off GOTOOLCHAIN=local
 mkdir -p build evidence replay
-bash harness/build.sh
+bash harness/build.sh || echo 'WARNING: some harness binaries failed to build'
 mkdir -p coq/Generated
 ./build/genconsts > build/Consts.v.new
 cmp -s build/Consts.v.new coq/Generated/Consts.v || cp build/Consts.v.new coq/Generated/Consts.v
 bash coq/gen.sh
 (cd coq && timeout 7000 make -j16 > ../build/coq-build.log 2>&1) || { tail -40 build/coq-build.log; exit 1; }
-bash ocaml/build.sh
+bash ocaml/build.sh || echo 'WARNING: some model drivers failed to build'
 echo setup done
